@@ -1,7 +1,10 @@
 SPECIFICATION FairSpec
 CONSTANTS
   MaxClocks = 3
+  Rounds = 1
+  DVals = {1, 2, 3}
   Overlap = TRUE
+  Hist = FALSE
   Fault = "ij"
 INVARIANTS ByDeadline ExactlyOncePrefix InTimeCounted NoStuckLeak SecondCallRefused CounterRestored
 PROPERTIES NoLeak
